@@ -10,7 +10,7 @@ mkdir -p $M
 cd $M/repo && git checkout -q --detach $(git -C /repo rev-parse HEAD) && git checkout -q -- . && git clean -qfd
 git apply "$patch" || { echo "patch does not apply"; exit 2; }
 mkdir -p $M/verif
-rsync -a --delete --exclude work --exclude harness/target --exclude .git /verif/ $M/verif/
+rsync -a --delete --exclude work --exclude harness/target --exclude .git ${VERIF_SRC:-/verif}/ $M/verif/
 sed -i "s#path = \"/repo\"#path = \"$M/repo\"#" $M/verif/harness/Cargo.toml
 cd $M/verif && VERIF_REPO=$M/repo ./vcheck $prop $tier > $M/out-$prop.txt 2>&1; rc=$?
 cd $M/repo && git checkout -q -- . && git clean -qfd
